@@ -47,12 +47,16 @@ PROPS = {
                 technique="Lean 4 proof (mutual structural induction / invariants) + differential correspondence of the executable model", profiles=[("wild", 800, 50000), ("loopout", 300, 10000), ("wf", 200, 10000)]),
     "C14": dict(level="translation_validation", modules=["SemVerif.Props.C14"],
                 theorems=[], profiles=[("fault1", 400, 30000), ("wild", 600, 40000)]),
-    "C15": dict(level="translation_validation", modules=["SemVerif.Props.C15"],
-                theorems=[], profiles=[("wild", 500, 30000), ("fault1", 300, 20000), ("wf", 300, 20000)]),
+    "C15": dict(level="proof", modules=["SemVerif.Props.C15"],
+                theorems=["SemVerif.C15", "SemVerif.rel_run"],
+                claim="Machine-checked Lean 4 theorem C15: for every program the output predicate holds on the model's result — the three tables and the global stack are exactly those of the declarative registration declPhase (first declaration of each name whose own checks pass; types first, then constants and functions in source order, one instruction each), one root block per function, no key twice. Proved by a simulation between the model's pass1/pass2 and the rule checker's declTypes/declConstsFns, by induction over the top-level list. Tied to /repo by the correspondence run (projection: tables, global stack, number of roots) on programs with duplicate names and failing declarations.",
+                technique="Lean 4 proof (simulation / structural induction) + differential correspondence of the executable model", profiles=[("wild", 500, 30000), ("fault1", 300, 20000), ("wf", 300, 20000)]),
     "C16": dict(level="translation_validation", modules=["SemVerif.Props.C16"],
                 theorems=[], profiles=[("perm", 300, 20000)]),
-    "C17": dict(level="translation_validation", modules=["SemVerif.Props.C17"],
-                theorems=[], profiles=[("swap", 250, 15000)]),
+    "C17": dict(level="proof", modules=["SemVerif.Props.C17"],
+                theorems=["SemVerif.C17_swap", "SemVerif.C17_decls", "SemVerif.C17_root", "SemVerif.C17_errors", "SemVerif.inv_mutationSites"],
+                claim="Machine-checked Lean 4 theorems: C17_decls (two programs that differ only in function bodies have the same declaration phase), C17_root / C17_swap (stack and block tree of function i are a function of the global tables and of that function alone, hence unchanged when the other bodies are replaced), C17_errors (error list = declaration errors ++ each function's body errors in order). In the model this is close to definitional; that the Rust code has this structure is checked on every run by the regenerated inventory of statements mutating self.global/self.errors/self.context (inv_mutationSites) and by the swap correspondence profile (base program, all bodies stubbed, per function all other bodies stubbed / replaced by foreign bodies).",
+                technique="Lean 4 proof (simulation / structural induction) + differential correspondence of the executable model", profiles=[("swap", 250, 15000)]),
     "C18": dict(level="translation_validation", modules=["SemVerif.Props.C18"],
                 theorems=[], profiles=[("wf", 400, 30000), ("wild", 400, 30000), ("fault1", 200, 10000)]),
     "C20": dict(level="translation_validation", modules=["SemVerif.Props.C20"],
